@@ -152,6 +152,11 @@ def finish(prop, tier, seed, reg, repo, results, extra, t0):
     proved = [x for x in groups if x[2]["verdict"] == "proved"]
     refuted = [x for x in groups if x[2]["verdict"] == "refuted"]
     unknown = [x for x in groups if x[2]["verdict"] == "unknown"]
+    vac = [x for x in groups if x[2]["verdict"] == "vacuous"]
+    if vac:
+        for _, n, g in vac:
+            print(f"CHECKER-ERROR: vacuous obligation {n}: {g['detail']}")
+        return 3
 
     violations = []
     known_hits = []
